@@ -110,6 +110,53 @@ def replay_files(paths):
     return out
 
 
+def cross_check(dump_dir, limit):
+    """re-decide sampled end-of-path queries with /usr/bin/z3 (4.8.12) and the cvc5 binary; any `(error` line or
+    time-out counts as undecided, a different sat/unsat answer as a disagreement"""
+    import glob
+    import random
+    files = sorted(glob.glob(os.path.join(dump_dir, '*.smt2')))
+    random.Random(0).shuffle(files)
+    files = files[:limit]
+    out = {'sampled': len(files), 'z3old_agree': 0, 'z3old_undecided': 0, 'cvc5_agree': 0, 'cvc5_undecided': 0,
+           'disagree': 0, 'disagreements': []}
+
+    def run(cmd):
+        try:
+            p = subprocess.run(cmd, capture_output=True, text=True, timeout=40)
+        except (subprocess.TimeoutExpired, OSError):
+            return None
+        txt = p.stdout + p.stderr
+        if '(error' in txt:
+            return None
+        for line in p.stdout.split():
+            if line in ('sat', 'unsat'):
+                return line
+        return None
+    procs = []
+    for f in files:
+        want = f.rsplit('-', 1)[1][:-5]
+        if want not in ('sat', 'unsat'):
+            continue
+        for key, cmd in (('z3old', ['/usr/bin/z3', '-T:30', f]), ('cvc5', ['cvc5', '--tlimit=30000', f])):
+            got = run(cmd)
+            if got is None:
+                out[key + '_undecided'] += 1
+            elif got == want:
+                out[key + '_agree'] += 1
+            else:
+                out['disagree'] += 1
+                out['disagreements'].append({'solver': key, 'file': os.path.basename(f), 'z3_5': want, 'other': got})
+                try:
+                    import shutil
+                    keep = os.path.join(OUT, 'smt-disagreements')
+                    os.makedirs(keep, exist_ok=True)
+                    shutil.copy(f, keep)
+                except Exception:
+                    pass
+    return out
+
+
 def run_check(pid, tier, seed):
     t_start = time.time()
     sys.path.insert(0, VERIF)
@@ -177,7 +224,18 @@ def run_check(pid, tier, seed):
         else:
             obs2.append(ob)
     obs = obs2
+    dump_dir = os.path.join(OUT, 'smt-dump', pid)
+    import shutil as _sh
+    _sh.rmtree(dump_dir, ignore_errors=True)
+    os.makedirs(dump_dir, exist_ok=True)
+    sxrun.DUMP_DIR = dump_dir
+    sxrun.DUMP_EVERY = 199 if tier == 'quick' else 97
     results = sxrun.explore_all(obs, log=log) if obs else {}
+    xcheck = cross_check(dump_dir, 12 if tier == 'quick' else 60)
+    log('  second solvers on %d sampled end-of-path queries: z3-4.8.12 agree=%d undecided=%d, cvc5 agree=%d undecided=%d, '
+        'DISAGREE=%d' % (xcheck['sampled'], xcheck['z3old_agree'], xcheck['z3old_undecided'], xcheck['cvc5_agree'],
+                         xcheck['cvc5_undecided'], xcheck['disagree']))
+    _sh.rmtree(dump_dir, ignore_errors=True)
 
     # 3. aggregate, replay violations
     import shutil
@@ -310,6 +368,8 @@ def run_check(pid, tier, seed):
             obn, label, path, str(r)[:300]))
     if extra_confirmed[0]:
         log('  (%d further replay-confirmed counterexamples with the same label/signature not listed)' % extra_confirmed[0])
+    if xcheck['disagree']:
+        inconclusive.append('second solver disagrees with z3 on %d sampled queries: %s' % (xcheck['disagree'], xcheck['disagreements'][:3]))
     if nonrepro:
         inconclusive.append('%d counterexample(s) did not reproduce on the uninstrumented code' % len(nonrepro))
 
@@ -329,6 +389,7 @@ def run_check(pid, tier, seed):
         'queries': total_q, 'solver_s': round(solver_s, 2),
         'functions_encoded': sorted(reached),
         'per_obligation': to_json(ob_reports),
+        'second_solver_cross_check': xcheck,
         'skipped_obligations': skipped,
         'inconclusive': inconclusive[:40],
         'known_findings_hit': sorted(known_hits),
